@@ -22,7 +22,7 @@ CORE = [
     P("nested-def", '<%def name="outer()">o ${hole1()}<%def name="inner()">i ${hole2()}</%def>${inner()}</%def>${outer()}'),
     P("block", 'a<%block name="b1">in ${hole1()}</%block><%block>anon ${hole2()}</%block><%block name="b2" filter="h">f ${hole3()}</%block>'),
     P("control", '% if c:\n a ${hole1()}\n% elif d:\n b\n% else:\n c\n% endif\n% while w:\n ${hole2()}\n% endwhile\n% try:\n ${hole3()}\n% except:\n e ${hole4()}\n% endtry\n'),
-    P("decorated-def", '<%! deco1 = lambda fn: fn %><%def name="d()" decorator="deco1">x ${hole1()}</%def>${d()}'),
+    P("decorated-def", '<%! deco1 = lambda fn: (lambda context, *a, **k: fn(*a, **k)) %><%def name="d()" decorator="deco1">x ${hole1()}</%def>${d()}'),
     P("call-in-buffered-def", '<%def name="t()">${hole0()}</%def><%def name="d()" buffered="True">x <%call expr="t()">b ${hole1()}</%call> ${hole2()}</%def>${d()}', expect={"render_d": UNCH}),
     P("page-args", '<%page args="a, b=2"/>x ${a} ${hole1()}<% c = hole2() %>${c}'),
     P("capture", 'a ${capture(hole1)} ${hole2()}'),
